@@ -186,6 +186,12 @@ class DimEval(Evaluator):
     def binop(self, node, op, a, b):
         if isinstance(a, (int, float)) and isinstance(b, (int, float)):
             return super().binop(node, op, a, b)
+        if isinstance(op, ast.Add) and type(a) is type(b) and isinstance(a, (tuple, list, str)):
+            return a + b                      # concatenation of name tables
+        if isinstance(op, ast.BitOr) and isinstance(a, dict) and isinstance(b, dict):
+            return {**a, **b}                 # dict merge
+        if isinstance(op, ast.Mult) and isinstance(a, (tuple, list, str)) and isinstance(b, int):
+            return a * b
         try:
             if isinstance(op, ast.Mult):
                 return lift(a) * lift(b)
